@@ -74,6 +74,8 @@ class Shadow:
         self.fetch_seen = 0
         # C17 bookkeeping
         self.recent_seen: list = []      # (slot, selection dict)
+        # every FLAGS report: (selection dict, slot, \Recent in it?, tick)
+        self.flag_obs: list = []
         self.sel_log: list[dict] = []    # selection intervals
 
     # -- helpers ------------------------------------------------------------
@@ -212,6 +214,10 @@ class Shadow:
                 slot.flags = frozenset(canon_flag(f) for f in flags)
                 if b'\\Recent' in slot.flags and self.selected is not None:
                     self.recent_seen.append((slot, self.selected))
+                if self.selected is not None:
+                    self.flag_obs.append((self.selected, slot,
+                                          b'\\Recent' in slot.flags,
+                                          self.client.world.seq))
                 if cur is not None:
                     cur.extra.setdefault('flag_fetched', []).append(slot)
             return
